@@ -541,3 +541,54 @@ Theorem shutdown_skips_disconnect :
   exists s, run params_fixed [LShutdown; LMainCtx; LMainLoop; LRecvExit; LSendExit; LMainWaitDone] init = Some s
             /\ returned s = true /\ disconnect_calls s = 0.
 Proof. eexists. split; [vm_compute; reflexivity|]. vm_compute. split; reflexivity. Qed.
+
+(* ------------------------------------------------------------------ packaged for Properties/C08.v *)
+
+Lemma run_reachable p ls s : run p ls init = Some s -> reachable p s.
+Proof.
+  intros H. eapply (run_reach p (fun _ => true) ls init s); auto.
+  - constructor.
+  - clear H. induction ls; simpl; auto.
+Qed.
+
+Theorem never_self_blocked :
+  forall p, disc_blocking p = false -> forall s, reachable p s -> main_blocked_on_disconnect s = false.
+Proof.
+  intros p Hp s H. pose proof (nonblocking_never_blocked p s Hp H).
+  unfold main_blocked_on_disconnect. destruct (main s); auto; congruence.
+Qed.
+
+Theorem idle_clauses :
+  forall pg, rearm pg = true ->
+  (forall p s n, main s = MSelect -> idle_fired s = false -> crashed s = false -> idle_timeout p <= idle s + n ->
+     exists s', run p (repeat LTick n) s = Some s' /\ enabled p LMainIdle s' = true)
+  /\ (forall p s, enabled p LMainIdle s = true -> idle_timeout p <= idle s /\ idle_fired s = false)
+  /\ (forall s s', step pg LMainMsg s = Some s' -> idle s' = 0 /\ idle_fired s' = false)
+  /\ (forall p l s s', step p l s = Some s' -> l <> LTick -> idle s' <= idle s).
+Proof.
+  intros pg Hre.
+  split; [exact idle_fires|]. split; [exact idle_not_early|]. split; [|exact idle_only_time].
+  intros s s'. apply idle_rearmed. exact Hre.
+Qed.
+
+(* the bound of main_self_block_bound is attained: the receiver and the sender each contribute one
+   entry, the main loop blocks on its seventh call (capacity 8) *)
+Definition bound_tight_witness : list label :=
+  [LClientSend KJoin] ++ recv_one ++ [LMainMsg; LMainLoop]
+  ++ repeat (LClientSend KFail) 7 ++ [LClientSend KBad] ++ concat (repeat recv_one 7) ++ [LRecvPass; LRecvRead; LRecvDisc]
+  ++ [LClientClose; LSendTake; LSendWriteFail; LSendDisc]
+  ++ concat (repeat [LMainMsg; LMainLoop] 6) ++ [LMainMsg].
+
+Theorem self_block_bound_tight :
+  exists s, run params_before bound_tight_witness init = Some s
+            /\ main s = MBlockDisc /\ main_disc_calls s + 1 = cap_disc params_before.
+Proof. eexists. split; [vm_compute; reflexivity|]. vm_compute. split; reflexivity. Qed.
+
+Theorem once_example :
+  exists s, reachable params_fixed s /\ disconnect_calls s = 1 /\ clean_final s = true.
+Proof.
+  destruct burst_fixed_clean as [s [Hr Hc]].
+  exists s. split; [eapply run_reachable; eauto|]. split; auto.
+  unfold clean_final in Hc. repeat (apply andb_true_iff in Hc as [Hc ?]).
+  apply Nat.eqb_eq. assumption.
+Qed.
